@@ -36,7 +36,8 @@ def step (s : St) (line : String) : St × String :=
       | (s', _) => (s', "nopong"))
   | ["read"] => u (read s)
   | ["close"] => u (Iscp.Rec.step s .close)
-  | ["dials"] => (s, "dials " ++ joinWith "," (s.dials.map fun b => if b then "1" else "0"))
+  | ["dials"] => (s, if s.dials.head? = some false ∧ s.dials.tail.all (· = true) then "dials first-plain-then-reconnect"
+      else "dials " ++ joinWith "," (s.dials.map fun b => if b then "1" else "0"))
   | ["logs"] => (s, "logs " ++ joinWith ";" ((List.range (s.inc + 1)).map fun i =>
       toString i ++ "=" ++ joinWith "," (sortStr (((alGet i s.logs).getD []).map hexOfBytes))))
   | ["seqlogs"] => (s, "seq " ++ joinWith "," ((allLogged s).map hexOfBytes))
